@@ -76,6 +76,17 @@ def selftest(chk, pid):
             keys = re.findall(r"^    key=(.*)$", r.stdout, re.M)
             if r.returncode == 1 and keys:
                 out[sid] = {"detected": True, "keys": keys[:4]}
+                continue
+            # a change that belongs to a sibling property's clause (recorded in meta.also_check) counts when that check reports it
+            sib = None
+            for other in meta.get("also_check", []):
+                r2 = subprocess.run([os.path.join(VERIF, "bin", "check"), other, "--tier", "quick"], env=env, capture_output=True, text=True)
+                k2_ = re.findall(r"^    key=(.*)$", r2.stdout, re.M)
+                if r2.returncode == 1 and k2_:
+                    sib = (other, k2_[:3])
+                    break
+            if sib:
+                out[sid] = {"detected": True, "by_sibling_check": sib[0], "keys": sib[1]}
             else:
                 out[sid] = {"detected": False, "exit": r.returncode}
                 print("SELFTEST-MISS: property=%s the rule set no longer reports seeded change %s" % (pid, sid))
